@@ -185,7 +185,7 @@ fn main() {
             dispatch,
         );
     }
-    let per = ctx.n(2_000, 50_000);
+    let per = ctx.n(2_000, 600_000);
     for &m in MODULI.iter().filter(|&&m| m > exh_limit) {
         ctx.prop(&format!("generated-M{}", m), "mint-case", per, case_for(m), dispatch);
     }
